@@ -61,26 +61,30 @@ Definition wf_tag (t : tag) : bool :=
 (* ---- stored bytes: where go-git's decoded fields are git's ---- *)
 Definition count_byte (c : N) (b : bytes) : nat := List.length (filter (N.eqb c) b).
 
-(* name/email part of an ident value: one '<', one '>', in this order; the
-   name has no leading space and, once its trailing spaces are removed, does
-   not end in TAB/CR (git strips those too, go-git only spaces) *)
+(* name/email part of an ident value (commits; git = ident.c split_ident_line):
+   one '<'; after it exactly one '>' (a '>' inside the name is harmless: git
+   takes the first '>' after the first '<', go-git the last '<' and the last
+   '>'); the name is blank, or has no leading space and, once its trailing
+   spaces are removed, does not end in TAB/CR (git strips those too, go-git
+   only spaces) *)
 Definition person_ok (v : bytes) : bool :=
-  Nat.eqb (count_byte LT v) 1 && Nat.eqb (count_byte GT v) 1 &&
-  match index_of LT v, index_of GT v with
-  | Some lt, Some gt =>
-    Nat.ltb lt gt &&
+  match index_of LT v with
+  | Some lt =>
     let before := firstn lt v in
-    negb (first_is SPC before) &&
-    match rev (trim_right SPC before) with
-    | c :: _ => negb ((c =? 9) || (c =? 13))
+    let after := skipn (S lt) v in
+    negb (has_byte LT after) && Nat.eqb (count_byte GT after) 1 &&
+    match trim_right SPC before with
     | [] => true
+    | t => negb (first_is SPC before) && negb (last_is 9 t || last_is 13 t)
     end
-  | _, _ => false
+  | None => false
   end.
 
-(* for-each-ref's copy_name additionally needs " <" and keeps inner trailing spaces *)
+(* tags (git = ref-filter.c copy_name / copy_email / grab_date): the name
+   ends at the first " <" and keeps inner trailing spaces, the date is looked
+   for after the FIRST '>' of the line, so the line holds a single '>' *)
 Definition person_ok_tag (v : bytes) : bool :=
-  person_ok v &&
+  person_ok v && Nat.eqb (count_byte GT v) 1 &&
   match index_of LT v with
   | Some (S p) => (nth p v 0 =? SPC) && negb (last_is SPC (firstn p v))
   | _ => false
@@ -109,9 +113,11 @@ Definition date_canon (after : bytes) : bool :=
     end
   | [] => false
   end.
+(* commits: the text after the last '>' holds no digit at all (git finds no
+   date, go-git's strconv.ParseInt fails: both report no date), or is canonical *)
 Definition date_ok (v : bytes) : bool :=
   match last_index_of GT v with
-  | Some i => match skipn (S i) v with [] => true | a => date_canon a end
+  | Some i => let a := skipn (S i) v in negb (existsb is_digit a) || date_canon a
   | None => true
   end.
 Definition date_ok_tag (v : bytes) : bool :=
